@@ -200,6 +200,10 @@ def run(tier):
                 # the scanner reads one character past '..' and has to put it back, which a pipe and a file may support differently
                 'dots-attr': b'__attribute__((unknown(..))) int x1 = 1;\n__attribute__((u2(a..b, ..), u3(. ..))) int x2 = 2;\nint f(int a, ...) { return a + x1 + x2; }\n',
                 'dots-eof': b'int x;\n..', 'dot-eof': b'int x;\n.', 'dots-nl-eof': b'int x;\n..\n', 'dots-many': b'#define D(a) a..b . .. c ...d ....e .. .. ..\n' * 400 + b'int x;\n',
+                # variable arguments omitted altogether (C23 form): whatever the answer is, it is the same answer under every allocator fill pattern
+                'va-omitted': b'#define TRACE(n, ...) trace(n, #__VA_ARGS__)\nvoid trace(const char *, const char *);\nvoid f(void) { TRACE("leave"); }\n',
+                'va-omitted-2': b'#define SHOW(n, ...) <n|#__VA_ARGS__>\nSHOW(first, y z w)\nSHOW(second)\n#define V0(...) #__VA_ARGS__ __VA_ARGS__\nV0() V0(,) V0( )\n#define V2(a, b, ...) a #b #__VA_ARGS__\nV2(1, 2) V2(1) V2(1, 2, )\n',
+                'va-omitted-3': b'#define E(f, ...) f(__VA_ARGS__)\n#define S(x, ...) #x #__VA_ARGS__\nint g(); int h = E(g); const char *s = S(a); const char *t = S(a,); const char *u = S();\n',
                 'dots-expr': b'struct s { int a; } v; int f(void) { return v..a; }\n'}
     vfiles = []
     for k, v in variants.items():
